@@ -215,6 +215,55 @@ mutual
       headErrs mode rerr (path ++ [.key key]) (errsC nn c (path ++ [.key key])) ++ errsF rest path
 end
 
+/-! ### Required errors: the error of every visible null whose *own* field failed -/
+
+/-- The error of a failing completion that is the position's own (a completion error); a list or
+    object fails with an error from beneath, which is not the position's own. -/
+def certC (c : Comp) (p : Path) : List Err :=
+  match c with
+  | .bad msg => [⟨p, msg⟩]
+  | _ => []
+
+/-- Required errors of one field invocation at `p`: a nullable field whose resolver fails, or whose
+    value fails with its own completion error, must report exactly that error; a field that yields
+    a value passes on the required errors beneath it (`inner`). -/
+def reqHead (mode : Mode) (nn : Bool) (rerr : Option String) (p : Path) (ok : Bool) (inner cert : List Err) : List Err :=
+  match mode with
+  | .tname => []
+  | _ =>
+    match rerr with
+    | some msg => if nn then [] else [⟨p, msg⟩]
+    | none => if ok then inner else if nn then [] else cert
+
+mutual
+  /-- Required errors beneath a value that is visible in the data. -/
+  def reqC (nn : Bool) (c : Comp) (path : Path) : List Err :=
+    if (comp nn c path).isOk then
+      match c with
+      | .list inn cs => reqL inn cs path 0
+      | .object fs => reqF fs path
+      | _ => []
+    else []
+  def reqL (inn : Bool) (cs : List Comp) (path : Path) (i : Nat) : List Err :=
+    match cs with
+    | [] => []
+    | c :: rest =>
+      (if (comp inn c (path ++ [.idx i])).isOk then reqC inn c (path ++ [.idx i])
+       else if inn then [] else certC c (path ++ [.idx i])) ++ reqL inn rest path (i + 1)
+  def reqF (fs : List Field) (path : Path) : List Err :=
+    match fs with
+    | [] => []
+    | .mk key nn mode rerr c :: rest =>
+      reqHead mode nn rerr (path ++ [.key key]) (comp nn c (path ++ [.key key])).isOk
+        (reqC nn c (path ++ [.key key])) (certC c (path ++ [.key key])) ++ reqF rest path
+end
+
+/-- The errors every run of the request must report: those of the visible nulls whose own field
+    failed (none are required when the whole data is null: then some propagating error is
+    reported, and which one may depend on the schedule). -/
+def required (rq : Request) : List Err :=
+  if fieldsOk rq.fields [] then reqF rq.fields [] else []
+
 /-- The data of a request: the root object's JSON, or null. -/
 def data (rq : Request) : String :=
   if fieldsOk rq.fields [] then "{" ++ ",".intercalate (jsonF rq.fields []) ++ "}" else "null"
